@@ -36,7 +36,7 @@
 #define MAXEV 16384
 
 enum { ST_UNUSED, ST_RUN, ST_BLOCK, ST_FIN, ST_FROZEN, ST_GONE };
-enum { BK_NONE, BK_MUTEX, BK_FUTEX, BK_JOIN, BK_GATE, BK_COND };
+enum { BK_NONE, BK_MUTEX, BK_FUTEX, BK_JOIN, BK_GATE, BK_COND, BK_STALL };
 
 struct sbent { uintptr_t addr; int size; uint64_t val; int hold; };
 
@@ -56,6 +56,7 @@ struct thr {
 	unsigned long yields;
 	unsigned long op_stores; int sb_cp_pending, demote_at_next;
 	int stack_shared;
+	unsigned long stall_until;
 	int exiting; unsigned long exit_base;	/* the start routine has returned; lsteps at that moment */	/* another thread has accessed an object on this thread's stack (e.g. a urcu_wait node) */
 	unsigned long run_since_switch;	/* scheduling points taken since this thread last yielded, blocked or was preempted */
 	unsigned long empt[256]; int nempt;	/* steps at which this thread's store buffer became empty */
@@ -88,6 +89,10 @@ static struct { int tid; unsigned long j; int len; } delays[MAXLIST]; static int
 /* delay2: the k-th bufferable store a thread executes during program operation `op` is held for `len` of its scheduling points; with cp set the
  * thread is preempted right after its next atomic load while that store is still buffered - the store-buffer litmus window (store; load; others run) */
 static struct { int tid, op; unsigned long k; int len, cp; } delays2[MAXLIST]; static int ndelay2;
+/* stall: a bounded preemption - thread t is descheduled at the k-th scheduling point of its operation `op` for n global steps (or until nothing else
+ * can run), then resumes with the highest priority. Unlike a change point (which lets every other thread run until it blocks), the others get to do
+ * only part of their work before t is back. */
+static struct { int tid, op; unsigned long k; unsigned long n; int used; } stalls[MAXLIST]; static int nstall;
 static struct { int tid; unsigned long k; int at_exit; } sigs[MAXLIST]; static int nsig;
 static struct { char kind[24]; long k; } faults[MAXLIST]; static int nfault;
 static uint64_t rw_rng; static int rw_permille;
@@ -150,7 +155,7 @@ static void finish(const char *status, const char *fmt, va_list ap)
 	if (getpid() != case_pid) {
 		/* forked child of the case (C16): verdict travels in the exit code; message on stderr */
 		(void) !write(2, out, n);
-		_exit(strcmp(status, "ok") ? 21 : 0);
+		_exit(!strcmp(status, "ok") ? 0 : !strcmp(status, "budget") ? 23 : 21);
 	}
 	(void) !write(result_fd, out, n);
 	_exit(0);
@@ -160,6 +165,8 @@ static void die(const char *status, const char *fmt, ...) { va_list ap; va_start
 void ds_fail(const char *fmt, ...) { va_list ap; in_rt = 1; va_start(ap, fmt); finish("viol", fmt, ap); }
 void ds_bad_case(const char *fmt, ...) { va_list ap; in_rt = 1; va_start(ap, fmt); finish("badcase", fmt, ap); }
 void ds_done(void) { in_rt = 1; die("ok", "-"); }
+/* a forked child ran out of step budget: the parent reports the same status, so that the driver re-runs the case with a 10x budget before calling it a hang */
+void ds_child_budget(const char *msg) { in_rt = 1; die("budget", "%s", msg); }
 void ds_note(const char *fmt, ...)
 {
 	if (!trace) return;
@@ -316,9 +323,20 @@ static void sb_tick(struct thr *t)
 static int sb_any(void) { for (int i = 0; i < nT; i++) if (T[i].sbn) return 1; return 0; }
 
 /* ---- scheduler ---- */
+static void wake_stalled(int force)
+{
+	int earliest = -1;
+	for (int i = 0; i < nT; i++) {
+		if (T[i].state != ST_BLOCK || T[i].bkind != BK_STALL) continue;
+		if (T[i].stall_until <= ds_step) { T[i].state = ST_RUN; T[i].bkind = BK_NONE; T[i].prio = ++max_prio; }
+		else if (earliest < 0 || T[i].stall_until < T[earliest].stall_until) earliest = i;
+	}
+	if (force && earliest >= 0) { T[earliest].state = ST_RUN; T[earliest].bkind = BK_NONE; T[earliest].prio = ++max_prio; }
+}
 static int pick(void)
 {
 	int best = -1;
+	if (nstall) wake_stalled(0);
 	for (int i = 0; i < nT; i++) {
 		if (T[i].state != ST_RUN) continue;
 		if (best < 0 || T[i].prio > T[best].prio) best = i;
@@ -348,6 +366,7 @@ static int solo_at_gate(void)
 static void resched(void)
 {
 	int next = pick();
+	if (next < 0 && nstall) { wake_stalled(1); next = pick(); }
 	if (next < 0 && freeze_solo >= 0 && !solo_on && solo_at_gate()) { do_freeze(self); next = pick(); }
 	if (next < 0) {
 		sb_drain_all();
@@ -404,6 +423,13 @@ static void sched_point(void)
 	/* time slice: a thread that computes for SLICE scheduling points without ever yielding or blocking is preempted like a yielding one (a real
 	 * scheduler is fair; without this a busy loop that contains no wait hint would starve every lower-priority thread) */
 	if (++me->run_since_switch > SLICE) { me->run_since_switch = 0; me->prio = --min_prio; flags |= 1ull << DSF_TIMESLICE; }
+	for (int i = 0; i < nstall; i++)
+		if (!stalls[i].used && tmatch(me, stalls[i].tid) && stalls[i].op == me->cur_op && stalls[i].k == me->op_pts && !solo_on) {
+			stalls[i].used = 1; flags |= 1ull << DSF_STALLED;
+			me->stall_until = ds_step + stalls[i].n; me->run_since_switch = 0;
+			me->state = ST_BLOCK; me->bkind = BK_STALL; me->bobj = NULL;
+			break;
+		}
 	if (rw_permille && (int)(xs(&rw_rng) % 1000) < rw_permille) {
 		int cand[MAXT], nc = 0;
 		for (int i = 0; i < nT; i++) if (T[i].state == ST_RUN) cand[nc++] = i;
@@ -816,6 +842,7 @@ static void thread_finish(struct thr *me)
 	wake_blocked(BK_JOIN, me, MAXT);
 	int next = pick();
 	if (next < 0) { sb_drain_all(); next = pick(); }
+	if (next < 0 && nstall) { wake_stalled(1); next = pick(); }
 	if (next < 0 && freeze_solo >= 0 && !solo_on && solo_at_gate()) { do_freeze(me); next = pick(); }
 	if (next < 0) {
 		if (scen_unfinished()) { char b[600]; describe_threads(b, sizeof b); die(solo_on ? "solo_block" : "deadlock", "at thread exit: %s", b); }
@@ -971,6 +998,7 @@ static void parse_case(char *text)
 		else if (!strcmp(w, "dprio")) { int m; while (ndprio < MAXLIST && sscanf(rest, "%ld%n", &dprio_list[ndprio], &m) == 1) { ndprio++; rest += m; } }
 		else if (!strcmp(w, "cp")) { if (ncp < MAXLIST && sscanf(rest, "%d %d %lu", &cps[ncp].tid, &cps[ncp].op, &cps[ncp].k) == 3) ncp++; }
 		else if (!strcmp(w, "delay")) { if (ndelay < MAXLIST && sscanf(rest, "%d %lu %d", &delays[ndelay].tid, &delays[ndelay].j, &delays[ndelay].len) == 3) ndelay++; }
+		else if (!strcmp(w, "stall")) { if (nstall < MAXLIST && sscanf(rest, "%d %d %lu %lu", &stalls[nstall].tid, &stalls[nstall].op, &stalls[nstall].k, &stalls[nstall].n) == 4) nstall++; }
 		else if (!strcmp(w, "delay2")) { if (ndelay2 < MAXLIST && sscanf(rest, "%d %d %lu %d %d", &delays2[ndelay2].tid, &delays2[ndelay2].op, &delays2[ndelay2].k, &delays2[ndelay2].len, &delays2[ndelay2].cp) == 5) ndelay2++; }
 		else if (!strcmp(w, "sigx")) { if (nsig < MAXLIST && sscanf(rest, "%d %lu", &sigs[nsig].tid, &sigs[nsig].k) == 2) { sigs[nsig].at_exit = 1; nsig++; } }
 		else if (!strcmp(w, "sig")) { if (nsig < MAXLIST && sscanf(rest, "%d %lu", &sigs[nsig].tid, &sigs[nsig].k) == 2) nsig++; }
